@@ -367,7 +367,7 @@ def obligations_c11(task, p, st, add):
             add('claim-touches-only-its-own-address', not st.map.foreign and all(k is st.src for (op, *ks) in st.map.log for k in ks[:1]), f'{st.map.foreign}', 'claim-map')
             if returned:
                 a = [c for c in st.add_data_calls if c[0] is msg]
-                add('claim-message-carries-the-claimed-identity', len(a) == 1 and (a[0][1][4] is st.new_ident or a[0][1][4] is st.ident))
+                add('claim-message-carries-the-claimed-identity', vor(is_obj(a[0][1][4], st.new_ident), is_obj(a[0][1][4], st.ident)) if len(a) == 1 else False)
         return
     if fast:
         c = st.fast_calls[0] if st.fast_calls else None
@@ -392,6 +392,13 @@ def obligations_c11(task, p, st, add):
         else:
             add('unknown-source-is-withheld-during-discovery', z3.Or(z3.Not(st.bnm.t), st.has_ident.t), scenario='withhold')
     add('non-claim-traffic-leaves-the-source-map-alone', not st.map.log and not st.map.foreign, f'{st.map.log}', 'map-frame')
+
+
+def is_obj(v, target):
+    if target is None:
+        return False
+    gs = [g for g, x in alts(v) if x is target]
+    return mk_bool(z3.Or(*gs)) if gs else False
 
 
 def identity_is(v, st):
